@@ -104,6 +104,23 @@ Theorem C18_error_with_other_state_refuted :
 Proof. exists wit_illformed. exact illformed_report_refutes. Qed.
 Print Assumptions C18_error_with_other_state_refuted.
 
+(* the settledness hypothesis of (a) ("the registered connection has reported after the last
+   user operation") is needed and its negation is a stable point of the real system:
+   pairing completed, every notification delivered in order, then CancelPairingWithSKI.
+   The connection ignores the abort request (AbortPendingHandshake acts in the two
+   pending states only), stays registered and reports nothing: the application was told
+   None, PairingDetailForSki answers Completed *)
+Theorem C18_cancel_ignored_refuted :
+  exists es,
+    in_order (init true) es = true /\ wf_reports es = true /\
+    pending (run (init true) es) = [] /\
+    cancel_ignored (run (init true) es) es = true /\
+    map n_st (rev (log (run (init true) es))) = [1; 2; 7; 0] /\
+    fst (answer (run (init true) es)) = ConnectionStateCompleted /\
+    mon_last (run (init true) es) = false.
+Proof. exists wit_cancel_ignored. exact cancel_ignored_refutes. Qed.
+Print Assumptions C18_cancel_ignored_refuted.
+
 (* the hypotheses of the partial theorems are satisfiable by a whole successful pairing *)
 Theorem C18_hypotheses_satisfiable :
   in_order (init true) ex_success = true /\ fifo ex_success = true /\ wf_reports ex_success = true /\
